@@ -478,6 +478,13 @@ func (p *Parser) parsePrefixExpression() ast.Node {
 
 	p.nextToken()
 
+	// A prefix operator applied to another one is printed with parentheses, -(-a), which cost whoever parses
+	// that form a level each: count them here too, so that what is accepted can be printed and read again.
+	switch p.curToken.Type() { //nolint:exhaustive // the prefix operators.
+	case token.BANG, token.MINUS, token.PLUS, token.INCR, token.DECR, token.BITNOT, token.BITXOR:
+		p.depth++
+		defer func() { p.depth-- }()
+	}
 	expression.Right = p.parseExpression(ast.PREFIX)
 
 	return expression
